@@ -1005,6 +1005,9 @@ func (s *Server) buildReply(msg *Message, clientDUID string, clientAddr net.IP) 
 
 // sendResponse sends a DHCPv6 response
 func (s *Server) sendResponse(msg *Message, addr *net.UDPAddr) {
+	if verifIntercept(s, msg, addr) {
+		return
+	}
 	data := msg.Serialize()
 
 	// Reply to client port
